@@ -23,7 +23,8 @@ Local Open Scope Z_scope.
 
 Definition id := Z.
 Definition key := list byte.
-Inductive kind := KScalar | KArray | KObject.
+Inductive styp := TBool | TInt | TDouble | TString.
+Inductive kind := KScalar (t : styp) | KArray | KObject.
 
 Record node := mkNode {
   rc : Z;                                  (* _ref_count *)
@@ -32,12 +33,17 @@ Record node := mkNode {
                                               array: ([], element) by position; None = NULL *)
   cb : option Z;                           (* Some r = a user delete callback is installed; r identifies
                                               the registration (0: made when the node was created, else
-                                              a number drawn from the state's counter, never reused) *)
+                                              a number drawn from the state's counter, never reused;
+                                              -1: not a caller's registration but the library's own
+                                              (text, json_object_free_userdata) pair that
+                                              json_object_new_double_s installs to retain the text) *)
   ud : bool                                (* _userdata != NULL *)
 }.
 Definition has_cb (n : node) : bool := match cb n with Some _ => true | None => false end.
 (* what json_object_copy_serializer_data looks at: _userdata || _user_delete *)
 Definition has_userinfo (n : node) : bool := has_cb n || ud n.
+Definition lib_reg : Z := -1.
+Definition has_lib_reg (n : node) : bool := match cb n with Some t => t =? lib_reg | None => false end.
 
 Definition heap := list (id * node).
 
@@ -124,6 +130,11 @@ Definition opt_ids (o : option id) : list id := match o with Some i => [i] | Non
 Definition new_node (s : state) (k : kind) : res :=
   ROk (mkSt ((nxt s, mkNode 1 k [] (Some 0) true) :: heap_of s) (nxt s + 1)) (nxt s) [].
 
+(* json_object_new_double_s: the node retains the source text through the library's own
+   registration; the driver installs nothing on it *)
+Definition new_double_s (s : state) : res :=
+  ROk (mkSt ((nxt s, mkNode 1 (KScalar TDouble) [] (Some lib_reg) true) :: heap_of s) (nxt s + 1)) (nxt s) [].
+
 Definition get_node (s : state) (i : id) : res :=
   match hfind (heap_of s) i with
   | None => RUB
@@ -180,7 +191,7 @@ Fixpoint key_copies (cs : list (key * option id)) : Z :=
 
 Definition is_kind (n : node) (k : kind) : bool :=
   match nkind n, k with
-  | KScalar, KScalar | KArray, KArray | KObject, KObject => true
+  | KScalar _, KScalar _ | KArray, KArray | KObject, KObject => true
   | _, _ => false
   end.
 
@@ -304,6 +315,46 @@ Definition set_ud (s : state) (i : id) (u d : bool) : res :=
           (match cb n with Some t => [EUser i t] | None => [] end)
   end.
 
+(* the value setters json_object_set_boolean / set_int / set_int64 / set_uint64 / int_inc /
+   set_double / set_string / set_string_len: 1 when the node has the setter's type, else 0.  None
+   of them touches a registration, with one exception written into json_object_set_double: when
+   the node still carries the library's own retained-text registration of
+   json_object_new_double_s (recognised by the private serializer only that constructor
+   installs) the text no longer matches and json_object_set_serializer(jso, NULL, NULL, NULL)
+   drops it.  A caller's registration — whatever serializer function it names — stays. *)
+Inductive setter := SBool | SInt | SInt64 | SUint64 | SIntInc | SDouble | SString | SStringLen.
+Definition setter_type (w : setter) : styp :=
+  match w with
+  | SBool => TBool
+  | SInt | SInt64 | SUint64 | SIntInc => TInt
+  | SDouble => TDouble
+  | SString | SStringLen => TString
+  end.
+Definition styp_eqb (a b : styp) : bool :=
+  match a, b with
+  | TBool, TBool | TInt, TInt | TDouble, TDouble | TString, TString => true
+  | _, _ => false
+  end.
+
+Definition set_value (s : state) (i : id) (w : setter) : res :=
+  match hfind (heap_of s) i with
+  | None => RUB
+  | Some n =>
+      match nkind n with
+      | KScalar t =>
+          if styp_eqb t (setter_type w) then
+            match w with
+            | SDouble =>
+                if has_lib_reg n
+                then match set_ud s i false false with ROk s' _ evs => ROk s' 1 evs | x => x end
+                else ROk s 1 []
+            | _ => ROk s 1 []
+            end
+          else ROk s 0 []
+      | _ => ROk s 0 []
+      end
+  end.
+
 Definition use_node (s : state) (i : id) : res :=
   match hfind (heap_of s) i with None => RUB | Some _ => ROk s 0 [] end.
 
@@ -319,6 +370,15 @@ Definition use_node (s : state) (i : id) : res :=
    The source is read from [hs], from which the node being copied is removed before
    descending: on an acyclic heap this changes nothing, on a cyclic one C never returns. *)
 Inductive cres := COk (s : state) (root : id) | CFail | CUB | CFuel.
+
+(* json_object_copy_serializer_data: nothing to copy when there is neither userdata nor a delete
+   function; the library's own retained-text registration is duplicated (strdup of the text);
+   anything else is userdata it does not know: -1 *)
+Definition copy_refused (custom : bool) (n : node) : bool :=
+  negb custom && has_userinfo n && negb (has_lib_reg n).
+Definition copy_cb (custom : bool) (n : node) : option Z :=
+  if custom then Some 0 else if has_lib_reg n then Some lib_reg else None.
+Definition copy_ud (custom : bool) (n : node) : bool := custom || has_lib_reg n.
 
 Definition attach (s : state) (me : id) (k : key) (v : option id) : state :=
   match hfind (heap_of s) me with
@@ -351,10 +411,10 @@ Fixpoint copy_f (f : nat) (custom : bool) (hs : heap) (s : state) (src : id) : c
       match hfind hs src with
       | None => CUB
       | Some n =>
-          if negb custom && has_userinfo n then CFail
+          if copy_refused custom n then CFail
           else
             let me := nxt s in
-            let s1 := mkSt ((me, mkNode 1 (nkind n) [] (if custom then Some 0 else None) custom) :: heap_of s) (me + 1) in
+            let s1 := mkSt ((me, mkNode 1 (nkind n) [] (copy_cb custom n) (copy_ud custom n)) :: heap_of s) (me + 1) in
             match copy_kids (copy_f f' custom (hdel hs src)) me (children n) s1 with
             | KOk s' => COk s' me
             | KFail => CFail
@@ -418,7 +478,7 @@ Definition ptr_get1 (h : heap) (obj : option id) (t : key) : option (option id) 
                             else None
               end
           | KObject => if valid_escaping t then assoc_find (unescape t) (children n) else None
-          | KScalar => None
+          | KScalar _ => None
           end
       end
   end.
@@ -455,7 +515,7 @@ Definition ptr_target (h : heap) (root : id) (path : option (list key)) : ptarge
                   if keq lastt [45] then PTArrAdd p
                   else match valid_index lastt with Some idx => PTArrPut p idx | None => PTNone end
               | KObject => if valid_escaping lastt then PTObj p (unescape lastt) else PTNone
-              | KScalar => PTNone
+              | KScalar _ => PTNone
               end
           end
       end
@@ -477,6 +537,8 @@ Definition ptr_set (s : state) (root : id) (path : option (list key)) (v : optio
 (* ------------------------------------------------------------------ operations *)
 Inductive op :=
 | ONew (k : kind)
+| ONewDoubleS
+| OSetVal (i : id) (w : setter)
 | OGet (i : id)
 | OPut (i : id)
 | OObjAdd (p : id) (k : key) (v : option id)
@@ -494,6 +556,8 @@ Inductive op :=
 Definition step (s : state) (o : op) : res :=
   match o with
   | ONew k => new_node s k
+  | ONewDoubleS => new_double_s s
+  | OSetVal i w => set_value s i w
   | OGet i => get_node s i
   | OPut i => put_node s i
   | OObjAdd p k v => obj_add s p k v
@@ -518,7 +582,7 @@ Definition upd_opt (L : ledger) (v : option id) (d : Z) : ledger :=
 (* the documented ownership rules, as the change of the client's owned references *)
 Definition ledger_step (h : heap) (L : ledger) (o : op) (ret : Z) : ledger :=
   match o with
-  | ONew _ => upd L ret 1                                   (* constructors give one reference *)
+  | ONew _ | ONewDoubleS => upd L ret 1                     (* constructors give one reference *)
   | OGet i => upd L i 1
   | OPut i => upd L i (-1)
   | OObjAdd _ _ v | OObjAddEx _ _ v _ _ | OArrAdd _ v | OArrPut _ _ v | OArrIns _ _ v =>
@@ -531,7 +595,7 @@ Definition ledger_step (h : heap) (L : ledger) (o : op) (ret : Z) : ledger :=
         | _ => upd_opt L v (-1)
         end
       else L
-  | OObjDel _ _ | OArrDel _ _ _ | OSetUd _ _ _ | OUse _ => L
+  | OObjDel _ _ | OArrDel _ _ _ | OSetUd _ _ _ | OUse _ | OSetVal _ _ => L
   end.
 
 (* edges and reachability *)
@@ -553,7 +617,7 @@ Definition size_t (z : Z) : Prop := 0 <= z <= SIZE_MAX.
 Definition admissible (s : state) (L : ledger) (o : op) : Prop :=
   let h := heap_of s in
   match o with
-  | ONew _ => True
+  | ONew _ | ONewDoubleS => True
   | OGet i => live h i                       (* any live node the client can reach may be retained *)
   | OPut i => L i >= 1                       (* never puts more than it owns *)
   | OObjAdd p _ v =>
@@ -568,7 +632,7 @@ Definition admissible (s : state) (L : ledger) (o : op) : Prop :=
   | OArrAdd p v => live_kind h p KArray /\ transfer_ok h L p v
   | OArrPut p idx v | OArrIns p idx v => live_kind h p KArray /\ size_t idx /\ transfer_ok h L p v
   | OArrDel p idx c => live_kind h p KArray /\ size_t idx /\ size_t c
-  | OSetUd i _ _ | OUse i => live h i
+  | OSetUd i _ _ | OUse i | OSetVal i _ => live h i
   | OCopy src _ => live h src
   | OPtrSet r path v =>
       live h r /\
